@@ -211,3 +211,46 @@ Definition buffered_sids (bufs : list bufobs) (t : N) : list N :=
 Definition subset_N (a b : list N) : bool := forallb (fun x => mem_N x b) a.
 Fixpoint nodup_N (l : list N) : bool := match l with [] => true | x :: r => negb (mem_N x r) && nodup_N r end.
 Definition cond (b : bool) (c : N) : codes := if b then [] else [c].
+
+(* ---------- specification tracker (used by the C03 / C07 monitors) ----------
+   Follows the IMPLEMENTATION for which traces are buffered (its buffer snapshots) and computes,
+   independently of the implementation, what the specification says about them: spans, deadline
+   (add_span / new_trace = the proved deadline formula), impact, size, config in force. *)
+Record tstate := { ts_bufs : list (amap trace); ts_cfg : cfg }.
+Definition keys_of (b : bufobs) : list N := map (fun e : N * list N * Z => fst (fst e)) b.
+Definition tb (ts : tstate) (w : nat) : amap trace := nth w (ts_bufs ts) [].
+Definition set_tb (ts : tstate) (w : nat) (b : amap trace) : tstate :=
+  {| ts_bufs := upd w b (ts_bufs ts); ts_cfg := ts_cfg ts |}.
+Definition drop_keys (b : amap trace) (ks : list N) : amap trace := filter (fun kv => negb (mem_N (fst kv) ks)) b.
+
+Definition track_step (ts : tstate) (it : item) : tstate :=
+  match i_op it with
+  | ISpan w s =>
+      let wi := N.to_nat w in
+      let b := tb ts wi in
+      let after := keys_of (nth wi (o_bufs it) []) in
+      let b1 := if mem_N (s_tid s) after then
+                  aset (s_tid s)
+                       (add_span (ts_cfg ts) (i_now it)
+                          (match alookup (s_tid s) b with Some tr => tr | None => new_trace (ts_cfg ts) (i_now it) end) s) b
+                else b in
+      set_tb ts wi (filter (fun kv => mem_N (fst kv) after) b1)
+  | ITick w lf => set_tb ts (N.to_nat w) (drop_keys (tb ts (N.to_nat w)) lf)
+  | IEject w _ lf => set_tb ts (N.to_nat w) (drop_keys (tb ts (N.to_nat w)) lf)
+  | IReload c => {| ts_bufs := ts_bufs ts; ts_cfg := c |}
+  | IAlloc _ _ lefts | IStop lefts =>
+      {| ts_bufs := map (fun p : amap trace * list N => drop_keys (fst p) (snd p))
+                        (combine (ts_bufs ts) (lefts ++ repeat [] (length (ts_bufs ts))));
+         ts_cfg := ts_cfg ts |}
+  end.
+
+(* (spec state before the item, item) for every item *)
+Fixpoint track (ts : tstate) (its : list item) : list (tstate * item) :=
+  match its with
+  | [] => []
+  | it :: r => (ts, it) :: track (track_step ts it) r
+  end.
+Definition tracked (k : case) : list (tstate * item) :=
+  track {| ts_bufs := repeat [] (N.to_nat (k_workers k)); ts_cfg := k_cfg k |} (k_items k).
+Definition ev_tid (e : ev) : N := fst (fst e).
+Definition ev_reason (e : ev) : N := snd e.
